@@ -502,6 +502,9 @@ func (R *Repository) updateEntry(entry *Entry, err error, store crlstore.CRLStor
 		entry.CRLStore.Close()
 		//mark as empty in case someone already acquired the entry and waits for a lock
 		entry.CRLStore = nil
+	} else {
+		//the entry might not have been loaded before (configured crl with fetch_background)
+		entry.Loaded = true
 	}
 	return err
 }
